@@ -12,7 +12,7 @@ LEAN_PROPS = [f"FcpptProofs.Props.C06.Trunc_{t}" for t in ("u8", "u16", "u32", "
     "FcpptProofs.Props.C06.Basic", "FcpptProofs.Props.C06.Arith", "FcpptProofs.Props.C06.Log2", "FcpptProofs.Props.C06.Pow", "FcpptProofs.Props.C06.NextPow",
     "FcpptProofs.Props.C06.Casts", "FcpptProofs.Props.C06.Div2", "FcpptProofs.Props.C06.CeilNarrow", "FcpptProofs.Props.C06.Interval", "FcpptProofs.Props.C06.Masks", "FcpptProofs.Props.C06.Enum2", "FcpptProofs.Props.C06.Relations", "FcpptProofs.Props.C06.Bool"]
 LEAN_EXTRA = ["FcpptModel.Gen.Scalar"]
-HARNESS = {"src": "harness/c06.cpp"}
+HARNESS = {"src": "harness/c06.cpp", "flags": []}       # flags: -DVERIF_C06_NO_<GROUP>, set by probe_groups()
 TIE = ("TRANSLATION: lean/FcpptModel/Gen/Scalar.lean is regenerated from /repo's headers on every run by tools/cxx2lean.py "
        "(instantiated clang-14 JSON AST -> Lean over the fixed-width semantics of Prelude/CInt.lean) and every theorem is re-checked "
        "against it; CORRESPONDENCE: the generated definitions and the real templates run on the same inputs (exhaustive 8/16-bit)")
@@ -61,7 +61,93 @@ def csv(vs):
     return ",".join(str(v) for v in vs) if vs else "-"
 
 
+# ---------------------------------------------------------------- groups of second-generation instantiations
+# One instantiation that stops compiling must not cost the whole harness (and with it every failing input): each group is
+# probed with a syntax-only compile (0.5 s) before the harness is built; a group that does not compile is switched off
+# (-DVERIF_C06_NO_<GROUP>), its ops are not generated, and the fact is reported as a broken correspondence.
+PROBE_INCLUDES = ["cstdint", "fcppt/bit/mask_c.hpp", "fcppt/bit/shifted_mask_c.hpp", "fcppt/cast/promote_int.hpp", "fcppt/cast/safe_numeric.hpp",
+                  "fcppt/cast/size.hpp", "fcppt/cast/to_signed.hpp", "fcppt/cast/to_unsigned.hpp", "fcppt/cast/truncation_check.hpp",
+                  "fcppt/enum/from_int.hpp", "fcppt/enum/size.hpp", "fcppt/math/ceil_div_signed.hpp", "fcppt/math/ceil_div_static.hpp",
+                  "fcppt/math/div.hpp", "fcppt/math/interval_distance.hpp", "fcppt/tuple/object.hpp"]
+I = ["std::int8_t", "std::int16_t", "std::int32_t", "std::int64_t"]
+U = ["std::uint8_t", "std::uint16_t", "std::uint32_t", "std::uint64_t"]
+PROBES = {
+    "BOOL": [f"(void)fcppt::cast::truncation_check<bool>({t}{{}});" for t in I + U] + [f"(void)fcppt::cast::truncation_check<{t}>(true);" for t in (U[0], U[3], I[0], I[2], I[3])],
+    "NAMED": ["(void)fcppt::cast::truncation_check<long long>(std::int32_t{});", "(void)fcppt::cast::truncation_check<unsigned long long>(std::int64_t{});",
+              "(void)fcppt::cast::truncation_check<char>(std::int32_t{});", "(void)fcppt::cast::truncation_check<std::uint8_t>(char{});",
+              "(void)fcppt::cast::truncation_check<wchar_t>(std::int64_t{});", "(void)fcppt::cast::truncation_check<char8_t>(std::int16_t{});",
+              "(void)fcppt::cast::truncation_check<char16_t>(char32_t{});", "(void)fcppt::cast::truncation_check<std::int16_t>(char16_t{});"],
+    "INTERVAL": [f"(void)fcppt::math::interval_distance<{t}>(fcppt::tuple::object<{t}, {t}>{{{t}{{}}, {t}{{}}}}, fcppt::tuple::object<{t}, {t}>{{{t}{{}}, {t}{{}}}});" for t in I + U],
+    "STATIC": ["(void)fcppt::math::ceil_div_static<std::uint32_t, 7, 2>::value;", "(void)fcppt::math::ceil_div_static<std::uint64_t, 7, 2>::value;",
+               "(void)fcppt::enum_::size<probe_enum_u>::value;", "(void)fcppt::enum_::size<probe_enum_i>::value;"],
+    "MASKS": [f"(void)fcppt::bit::mask_c<{t}, 1>();" for t in U] + [f"(void)fcppt::bit::shifted_mask_c<{t}, 7>();" for t in U],
+    "CASTS": [f"(void)fcppt::cast::size<{d}>({s}{{}});" for g in (I, U) for d in g for s in g]
+             + [f"(void)fcppt::cast::safe_numeric<{g[3]}>({s}{{}});" for g in (I, U) for s in g]
+             + [f"(void)fcppt::cast::to_signed({t}{{}});" for t in U] + [f"(void)fcppt::cast::to_unsigned({t}{{}});" for t in I]
+             + [f"(void)fcppt::cast::promote_int({t}{{}});" for t in I + U],
+    "DIV2": [f"(void)fcppt::math::div({t}{{}}, {t}{{}});" for t in (I[0], I[1], U[0], U[1])]
+            + ["(void)fcppt::math::div(std::int32_t{}, std::uint32_t{});", "(void)fcppt::math::div(std::uint64_t{}, std::int8_t{});"]
+            + [f"(void)fcppt::math::ceil_div_signed<{t}>({t}{{}}, {t}{{}});" for t in (I[0], I[1])],
+    "ENUM2": [f"(void)fcppt::enum_::from_int<probe_enum_i>({t}{{}});" for t in U] + [f"(void)fcppt::enum_::from_int<probe_enum_c>({t}{{}});" for t in U],
+}
+DISABLED = {}       # group -> first error line
+
+
+def probe_groups():
+    from vlib import harness as vh
+    DISABLED.clear()
+    text = "".join(f"#include <{h}>\n" for h in PROBE_INCLUDES)
+    text += "enum class probe_enum_u : std::uint8_t { a, fcppt_maximum = a };\nenum class probe_enum_i { a, b, fcppt_maximum = b };\n"
+    text += "enum class probe_enum_c : std::int8_t { a, b, fcppt_maximum = b };\n"
+    where = {}
+    n = text.count("\n")
+    for g, body in PROBES.items():
+        text += f"void probe_{g}() {{\n"
+        n += 1
+        for l in body:
+            n += 1
+            where[n] = g
+            text += "  " + l + "\n"
+        text += "}\n"
+        n += 1
+    os.makedirs(paths.CACHE, exist_ok=True)
+    src = os.path.join(paths.CACHE, f"c06_probe_{os.getpid()}.cpp")
+    try:
+        with open(src, "w") as f:
+            f.write(text)
+        p = subprocess.run([vh.CXX, "-std=c++20", "-fsyntax-only", "-DFCPPT_STATIC_LINK"] + vh.include_flags() + [src], capture_output=True, text=True)
+        if p.returncode != 0:
+            import re
+            last_error = None
+            for l in p.stderr.split("\n"):
+                m = re.search(r"error: (.*)", l)
+                if m:
+                    last_error = m.group(1)
+                m = re.search(r"c06_probe_\d+\.cpp:(\d+):", l)
+                if m and int(m.group(1)) in where:
+                    DISABLED.setdefault(where[int(m.group(1))], last_error or l.strip())
+    except Exception as e:        # the probe is an optimisation of the report: never an infrastructure error
+        sys.stderr.write(f"WARNING C06 probe: {e}\n")
+    finally:
+        try:
+            os.unlink(src)
+        except OSError:
+            pass
+    HARNESS["flags"] = [f"-DVERIF_C06_NO_{g}" for g in sorted(DISABLED)]
+
+
+def extra_checks(binp, rng, tier, ev):
+    return [{"kind": "broken-correspondence", "theorems": [],
+             "what": f"the {g} instantiations of the harness no longer compile against /repo ({why}); they are switched off, the remaining functions keep their correspondence"}
+            for g, why in sorted(DISABLED.items())]
+
+
+def on(group):
+    return group not in DISABLED
+
+
 def regenerate():
+    probe_groups()
     out = os.path.join(paths.LEAN, "FcpptModel", "Gen", "Scalar.lean")
     rep = os.path.join(paths.CACHE, f"cxx2lean_{os.getpid()}.json")
     os.makedirs(paths.CACHE, exist_ok=True)
@@ -198,20 +284,20 @@ def batches(rng, tier):
             vs = [r.range(lo(s), hi(s)) for _ in range(40)] + [r.range(lo(d) - 300, hi(d) + 300) for _ in range(40)]
             ops.append(f"list1 truncation_check_{d}_{s} {csv(sorted(v for v in vs if lo(s) <= v <= hi(s)))}")
     # integral types that are not the fixed-width typedefs (same representation: the model of the typedef is used)
-    for d, s in NAMED_PAIRS:
+    for d, s in (NAMED_PAIRS if on("NAMED") else []):
         cs = CANON.get(s, s)
         f = f"truncation_check_{d}_{s}"
         ops.append(f"range1 {f} {lo(cs)} {hi(cs)}" if BITS[cs] <= 16 else f"list1 {f} {csv(lattice(cs))}")
-    for st in ALL:
+    for st in (ALL if on("BOOL") else []):
         if BITS[st] == 8 and not BOOL_DEST_FROM_8BIT:
             continue
         ops.append(f"range1 truncation_check_b_{st} {lo(st)} {hi(st)}" if BITS[st] <= 16 else f"list1 truncation_check_b_{st} {csv(lattice(st))}")
-    for d in ("u8", "u64", "i8", "i32", "i64"):
+    for d in (("u8", "u64", "i8", "i32", "i64") if on("BOOL") else ()):
         ops.append(f"range1 truncation_check_{d}_b 0 1")
     yield Batch("truncation_check-random", ops, note="seeded random 32/64-bit sources, half of them near the destination's limits; 20 pairs with long long / char / wchar_t / char8_t / char16_t / char32_t (all 8/16-bit values, lattice)")
     # ---- from_int
     ops = []
-    for u in ENUM_UNDER:
+    for u in (ENUM_UNDER if on("ENUM2") else UNS):
         for v in UNS:
             xs = lattice(v, extra=[s + d for s in FROM_INT_SIZES[u] for d in (-2, -1, 0, 1, 2)] + [256, 257, 258, 65536, 65537, 65538, (1 << 32) + 1, (1 << 32) + 2])
             if BITS[v] <= 16:
@@ -285,7 +371,7 @@ def batches(rng, tier):
     yield from batches2(rng, tier)
     if thorough:
         ops = []
-        for f in ("diff_u16", "diff_i16", "mod_u16", "bit_test_u16", "div_u16", "div_i16", "ceil_div_signed_i16"):
+        for f in ("diff_u16", "diff_i16", "mod_u16", "bit_test_u16") + (("div_u16", "div_i16", "ceil_div_signed_i16") if on("DIV2") else ()):
             base = -32768 if "_i16" in f else 0
             ops += [f"selfcheck {f} {base + r} {base + r + 4095}" for r in range(0, 65536, 4096)]     # 16 lines of 4096 rows each
         yield Batch("full-16bit-squares", ops, exhaustive=True, note="all 2^32 operand pairs of every binary 16-bit instantiation (diff u16/i16, mod, bit::test, div u16/i16, ceil_div_signed i16) against the harness' wide-arithmetic oracle")
@@ -314,13 +400,13 @@ def batches2(rng, tier):
     ops.append("range2 ceil_div_signed_i16 -32768 -32763 -32768 32767")
     ops.append("range2 ceil_div_signed_i16 32762 32767 -32768 32767")
     ops.append("range2 ceil_div_signed_i16 -300 300 -300 300")
-    yield Batch("div-narrow", ops, exhaustive=True, note="all pairs of the 8-bit instantiations; 16-bit: lattice pairs, every dividend against the divisors around 0, every divisor against the extreme dividends")
+    yield Batch("div-narrow", ops if on("DIV2") else [], exhaustive=True, note="all pairs of the 8-bit instantiations; 16-bit: lattice pairs, every dividend against the divisors around 0, every divisor against the extreme dividends")
     ops = []
     for l, r in DIV_MIXED:
         la = lattice(l) if BITS[l] > 8 else list(range(lo(l), hi(l) + 1))
         ra = lattice(r) if BITS[r] > 8 else list(range(lo(r), hi(r) + 1))
         ops.append(f"list2 div_{l}_{r} {csv(la)} {csv(ra)}")
-    yield Batch("div-mixed", ops, note="mixed operand types (the usual arithmetic conversions choose the type of the division): lattice x lattice, 8-bit operands exhaustively")
+    yield Batch("div-mixed", ops if on("DIV2") else [], note="mixed operand types (the usual arithmetic conversions choose the type of the division): lattice x lattice, 8-bit operands exhaustively")
     # ---- interval_distance: all quadruples over a window around 0 / the lower end (every relative position of two small
     # intervals incl. equal ends, containment, touching, inverted intervals) and over the boundary values
     ops = []
@@ -333,7 +419,7 @@ def batches2(rng, tier):
             ops.append(f"list4 interval_distance_{t} {csv(list(range(hi(t) - 9, hi(t) + 1)))}")
         else:
             ops.append(f"list4 interval_distance_{t} {csv(list(range(lo(t), lo(t) + 5)) + list(range(hi(t) - 4, hi(t) + 1)))}")
-    yield Batch("interval_distance", ops, exhaustive=True, note="all quadruples (a1,b1,a2,b2) over 13-value windows, the type's ends and a boundary list: every relative position of two intervals")
+    yield Batch("interval_distance", ops if on("INTERVAL") else [], exhaustive=True, note="all quadruples (a1,b1,a2,b2) over 13-value windows, the type's ends and a boundary list: every relative position of two intervals")
     # ---- the unchecked casts
     ops = []
     for grp in (UNS, SIG):
@@ -346,7 +432,7 @@ def batches2(rng, tier):
         fs = ["promote_int", "to_signed" if t[0] == "u" else "to_unsigned"]
         for f in fs:
             ops.append(f"range1 {f}_{t} {lo(t)} {hi(t)}" if BITS[t] <= 16 else f"list1 {f}_{t} {csv(lattice(t))}")
-    yield Batch("casts", ops, exhaustive=True, note="cast::size (32 pairs), safe_numeric (20), to_signed, to_unsigned, promote_int: all 8/16-bit values, lattice of the wider sources")
+    yield Batch("casts", ops if on("CASTS") else [], exhaustive=True, note="cast::size (32 pairs), safe_numeric (20), to_signed, to_unsigned, promote_int: all 8/16-bit values, lattice of the wider sources")
     r = rng.fork("casts-random")
     ops = []
     for grp in (UNS, SIG):
@@ -358,34 +444,38 @@ def batches2(rng, tier):
     for t in ("u32", "u64", "i32", "i64"):
         vs = sorted({r.range(lo(t), hi(t)) for _ in range(60)})
         ops.append(f"list1 {'to_signed' if t[0] == 'u' else 'to_unsigned'}_{t} {csv(vs)}")
-    yield Batch("casts-random", ops, note="seeded random 32/64-bit sources")
+    yield Batch("casts-random", ops if on("CASTS") else [], note="seeded random 32/64-bit sources")
     # ---- compile-time masks and statics
-    ops = [f"call mask_c_{t}_{m}" for t in UNS for m in MASK_C[t]] + [f"call shifted_mask_c_{t}_{b}" for t in UNS for b in SHIFTED_MASK_C[t]]
-    for t in ("u32", "u64"):
-        for a in STATIC_DIVIDENDS[t]:
-            for b in (1, 2, 3, 7, 65536, hi(t) - 1, hi(t)):
-                ops.append(f"static2 ceil_div_static_{t} {a} {b}")
-    ops += [f"enumsize {u} {m}" for u in ENUM_MAXIMA for m in ENUM_MAXIMA[u]]
+    ops = []
+    if on("MASKS"):
+        ops += [f"call mask_c_{t}_{m}" for t in UNS for m in MASK_C[t]] + [f"call shifted_mask_c_{t}_{b}" for t in UNS for b in SHIFTED_MASK_C[t]]
+    if on("STATIC"):
+        for t in ("u32", "u64"):
+            for a in STATIC_DIVIDENDS[t]:
+                for b in (1, 2, 3, 7, 65536, hi(t) - 1, hi(t)):
+                    ops.append(f"static2 ceil_div_static_{t} {a} {b}")
+        ops += [f"enumsize {u} {m}" for u in ENUM_MAXIMA for m in ENUM_MAXIMA[u]]
     yield Batch("compile-time", ops, exhaustive=True, note="mask_c / shifted_mask_c instantiations, ceil_div_static against the run-time ceil_div, enum_::size of the harness enums")
     # ---- one object in every parameter (the functions take references)
     ops = []
     for t in ALL:
-        fs = ["clamp", "diff", "div"] + (["mod", "bit_test"] if t[0] == "u" else [])
+        fs = ["clamp", "diff"] + (["div"] if BITS[t] > 16 or on("DIV2") else []) + (["mod", "bit_test"] if t[0] == "u" else [])
         for f in fs:
             ops.append(f"aliasr {f}_{t} {lo(t)} {hi(t)}" if BITS[t] <= 16 else f"aliasl {f}_{t} {csv(lattice(t))}")
     for f in ("ceil_div_u32", "ceil_div_u64", "ceil_div_signed_i32", "ceil_div_signed_i64"):
         ops.append(f"aliasl {f} {csv(lattice(f.rsplit('_', 1)[1]))}")
-    ops.append("aliasr ceil_div_signed_i8 -128 127")
-    ops.append("aliasr ceil_div_signed_i16 -32768 32767")
+    if on("DIV2"):
+        ops.append("aliasr ceil_div_signed_i8 -128 127")
+        ops.append("aliasr ceil_div_signed_i16 -32768 32767")
     yield Batch("aliasing", ops, exhaustive=True, note="f(x, x) / clamp(x, x, x) with the same object bound to every reference parameter: all 8/16-bit values, lattice otherwise")
     if thorough:
         ops = []
-        for t in ("u16", "i16"):
+        for t in (("u16", "i16") if on("DIV2") else ()):
             for _ in range(8):
                 a = rng.range(lo(t), hi(t) - 255)
                 b = rng.range(lo(t), hi(t) - 255)
                 ops.append(f"range2 div_{t} {a} {a + 255} {b} {b + 255}")
-        for t in ("u8", "i8"):
+        for t in (("u8", "i8") if on("INTERVAL") else ()):
             w = list(range(lo(t), lo(t) + 24))
             ops.append(f"list4 interval_distance_{t} {csv(w)}")
             w = list(range(hi(t) - 23, hi(t) + 1))
@@ -533,7 +623,7 @@ def search(binp, rng, tier):
         for s in ALL:
             vs = range(lo(s), hi(s) + 1) if BITS[s] == 8 else lattice(s) + [rng.range(lo(s), hi(s)) for _ in range(30)]
             ops += [f"call truncation_check_{d}_{s} {v}" for v in vs]
-    for u in ENUM_UNDER:
+    for u in (ENUM_UNDER if on("ENUM2") else UNS):
         for v in UNS:
             for s in FROM_INT_SIZES[u]:
                 ops += [f"call from_int_{u}_{v} {x} {s}" for x in lattice(v, extra=[s - 1, s, s + 1, 256, 257, 65536, 65537]) if x >= 0]
@@ -552,31 +642,32 @@ def search(binp, rng, tier):
         vs = [lo(t), lo(t) + 1, -1, 0, 1, 5, hi(t) - 1, hi(t)]
         vs = [v for v in vs if lo(t) <= v <= hi(t)]
         ops += [f"call clamp_{t} {a} {b} {c}" for a in vs for b in vs for c in vs]
-    for st in ALL:
+    for st in (ALL if on("BOOL") else []):
         ops += [f"call truncation_check_b_{st} {v}" for v in (range(lo(st), hi(st) + 1) if BITS[st] == 8 else lattice(st))]
     # second generation
     pick = lambda t: lattice(t) if BITS[t] > 8 else list(range(lo(t), hi(t) + 1))
     few = lambda t: [v for v in pick(t) if abs(v) < 40 or v in (lo(t), hi(t), lo(t) + 1, hi(t) - 1) or (abs(v) & (abs(v) - 1)) == 0 or ((abs(v) + 1) & abs(v)) == 0][:90]
-    for grp in (UNS, SIG):
+    for grp in ((UNS, SIG) if on("CASTS") else ()):
         for d in grp:
             for s in grp:
                 ops += [f"call size_{d}_{s} {v}" for v in pick(s)]
                 if BITS[d] >= BITS[s]:
                     ops += [f"call safe_numeric_{d}_{s} {v}" for v in pick(s)]
-    for t in ALL:
+    for t in (ALL if on("CASTS") else []):
         ops += [f"call promote_int_{t} {v}" for v in pick(t)]
         ops += [f"call {'to_signed' if t[0] == 'u' else 'to_unsigned'}_{t} {v}" for v in pick(t)]
-    for t in ("u8", "i8", "u16", "i16"):
+    for t in (("u8", "i8", "u16", "i16") if on("DIV2") else ()):
         ops += [f"call div_{t} {a} {b}" for a in few(t) for b in few(t)]
-    for t in ("i8", "i16"):
+    for t in (("i8", "i16") if on("DIV2") else ()):
         ops += [f"call ceil_div_signed_{t} {a} {b}" for a in few(t) for b in few(t)]
-    for l, r in DIV_MIXED:
+    for l, r in (DIV_MIXED if on("DIV2") else []):
         ops += [f"call div_{l}_{r} {a} {b}" for a in few(l) for b in few(r)]
-    for t in ALL:
+    for t in (ALL if on("INTERVAL") else []):
         vs = small(t) + ([3, 4, 7] if t[0] == "u" else [-5, 3, 4])
         vs = sorted(set(v for v in vs if lo(t) <= v <= hi(t)))
         ops += [f"call interval_distance_{t} {a} {b} {c} {d}" for a in vs for b in vs for c in vs for d in vs]
-    ops += [f"call mask_c_{t}_{m}" for t in UNS for m in MASK_C[t]] + [f"call shifted_mask_c_{t}_{b}" for t in UNS for b in SHIFTED_MASK_C[t]]
+    if on("MASKS"):
+        ops += [f"call mask_c_{t}_{m}" for t in UNS for m in MASK_C[t]] + [f"call shifted_mask_c_{t}_{b}" for t in UNS for b in SHIFTED_MASK_C[t]]
     out, deaths = run_harness(binp, ops)
     for op, got in zip(ops, out):
         tk = op.split()
